@@ -78,6 +78,21 @@ pub fn fixed_inputs(p: &Prepared, def: &DefSpec, caps: (usize, usize), n_random:
         run.count("cover_dropped_invalid_utf8", cs.dropped_invalid_utf8 as u64);
     }
     inputs.push(Vec::new());
+    // every pattern with a finite language at its maximal length (counted repetitions at their upper bound), alone and
+    // followed by one more byte: the covering walk is capped and gives shortest witnesses only
+    for pat in &p.reflex.pats {
+        if let crate::reference::Matcher::Dfa(d) = &pat.matcher {
+            if let Some(w) = d.longest_word(1024) {
+                if w.len() >= 8 && (!def.utf8 || std::str::from_utf8(&w).is_ok()) {
+                    for tail in [&b""[..], b" ", b"a", b"0"] {
+                        let mut v = w.clone();
+                        v.extend_from_slice(tail);
+                        inputs.push(v);
+                    }
+                }
+            }
+        }
+    }
     // a byte order mark at the very start of the input is text like any other
     inputs.push("\u{feff}".as_bytes().to_vec());
     if let Some(first) = inputs.iter().find(|i| !i.is_empty() && i.len() < 12).cloned() {
